@@ -1,4 +1,5 @@
 import Bluge.MergePlan
+import BlugeGen.C19
 import Std.Data.HashMap
 /-! Model driver for C19 (merge planner). Line protocol: see go/harness/c19/main.go.
 
@@ -10,7 +11,15 @@ import Std.Data.HashMap
   quiescence / no-op checks) evaluated on the IMPLEMENTATION's tasks.
 * `case h… <opts>`, `add`, `del`, `hplan`, `settled` : a simulated history; the driver keeps its own state
   and executes the MODEL's tasks with `executeTask`.
-* `score`, `budget` : the default scorer and budget on their own. -/
+* `rplan <opts> | <segs> | <scores>` : a planner input recorded from a REAL writer's merger (through the
+  `CalcBudget`/`ScoreSegments` hooks of `MergePlanOptions` and the root trace); same as `plan`, and the verdict
+  first evaluates the theorems' hypotheses `idsDistinct`, `sizesSane` on it (`bad:assumption-…`).
+* `score`, `budget` : the default scorer and budget on their own; `budget` lines carry, when the float
+  operations are exact, the exact staircases `calcBudgetNat` / `calcBudgetRat` and the verdict evaluates
+  `budget_logarithmic(_rat)` / `budget_linear_when_tier_stuck` on the implementation's number.
+* `witness` : the score table of the Lean witness `livelock_real_scores` against the real `ScoreSegments`.
+
+The variant of the roster guard (`Options.skipNoop`) is the regenerated `BlugeGen.C19.skipNoop`. -/
 open Bluge Bluge.MergePlan
 
 structure St where
@@ -18,13 +27,14 @@ structure St where
   fo : FOptions := ⟨10.0, 2.0⟩
   segs : List Seg := []
   inHist : Bool := false
+  lastAllNoop : Bool := false    -- the last plan of the history consisted of no-op singletons only
 
 def parseOpts (ws : List String) : Option (Options × FOptions) :=
   match ws with
   | [per, mx, pt, fl, g, w] => do
     let per ← per.toInt?; let mx ← mx.toInt?; let pt ← pt.toInt?; let fl ← fl.toInt?
     let g ← parseHex g; let w ← parseHex w
-    pure (⟨per, mx, pt, fl⟩, ⟨Float.ofBits g.toUInt64, Float.ofBits w.toUInt64⟩)
+    pure (⟨per, mx, pt, fl, BlugeGen.C19.skipNoop⟩, ⟨Float.ofBits g.toUInt64, Float.ofBits w.toUInt64⟩)
   | _ => none
 
 def parseSeg (s : String) : Option Seg :=
@@ -97,9 +107,10 @@ structure PlanOut where
   result : String
   verdict : String
   tasks : List (List Seg)     -- the model's tasks (for the history state)
+  allNoop : Bool := false     -- the IMPLEMENTATION's plan consists of no-op singletons only
 
 /-- one planner call: model result, oracle verdict on the implementation's tasks, branches -/
-def doPlan (o : Options) (fo : FOptions) (segs : List Seg) (scoresStr implLine : String) : PlanOut :=
+def doPlan (o : Options) (fo : FOptions) (segs : List Seg) (scoresStr implLine : String) (real : Bool := false) : PlanOut :=
   let impl := match implLine.splitOn " after " with | a :: _ => a | [] => implLine
   let cb := calcBudgetF o fo
   let sf := scoreSegmentsF o fo
@@ -147,6 +158,7 @@ def doPlan (o : Options) (fo : FOptions) (segs : List Seg) (scoresStr implLine :
         (if ts.any (fun t => t.length == 1) then ["singleton-task"] else []) ++
         (if ts.any (fun t => liveSum t == o.maxSegmentSize - 1) then ["sum-just-below-max"] else []) ++
         (if o.segmentsPerMergeTask ≥ 2 && ts.any isNoopSingleton then ["noop-singleton-task"] else []))
+    ++ (if real then ["real-planner-input"] ++ (if segs.any (fun s => s.liveSize < s.fullSize) then ["real-input-with-deletions"] else []) else [])
     ++ (if useGo then ["go-scores"] else (if mtasks.length > (if p.empties.length > 0 then 1 else 0) then ["model-float-scores"] else []))
     ++ floatSame
     ++ (if cmp.1 > 0 then ["score-bits-equal"] else []) ++ (if cmp.2.1 > 0 then ["score-ulp-diff"] else [])
@@ -156,8 +168,14 @@ def doPlan (o : Options) (fo : FOptions) (segs : List Seg) (scoresStr implLine :
     ++ (if segs.any (fun s => s.liveSize ≥ o.maxSegmentSize) then ["live-ge-max"] else [])
   -- verdict: the oracle on the implementation's own tasks
   let sane := optionsSane o && distinct
+  let implTasks : Option (List (List Seg)) :=
+    ((implField impl "tasks=").bind parseTasks).bind fun idTasks => idTasks.mapM (fun t => t.mapM (idmap[·]?))
+  let implAllNoop := match implTasks with | some its => allNoop its | none => false
   let verdict : String :=
-    if impl == "timeout" || impl == "runaway" then "bad:planner-did-not-return"
+    -- the theorems' hypotheses, on what a real merger handed to the planner
+    if real && !distinct then "bad:assumption-ids-distinct"
+    else if real && !sizesSane segs then "bad:assumption-sizes-sane"
+    else if impl == "timeout" || impl == "runaway" then "bad:planner-did-not-return"
     else if impl == "skipped-after-timeout" then "na"
     else if impl == "panic" then (if sane then "bad:panic" else "na")
     else if impl.startsWith "hook-divergence" then "bad:plan-depends-on-hook-identity"
@@ -177,19 +195,60 @@ def doPlan (o : Options) (fo : FOptions) (segs : List Seg) (scoresStr implLine :
             if its.isEmpty && ((eligibles o segs).length : Int) > b then "bad:quiescent-over-budget"
             -- a merge of one deletion-free segment into itself can never make progress
             -- (one such task beside useful ones is wasted work: counted as branch `noop-singleton-task`)
-            else if o.segmentsPerMergeTask ≥ 2 && sizesSane segs && !its.isEmpty && its.all isNoopSingleton then "bad:plan-makes-no-progress"
+            else if histOptionsSane o && sizesSane segs && allNoop its then "bad:plan-makes-no-progress"
             else "ok"
   let brs := if br.isEmpty then "" else " br=" ++ ",".intercalate br
-  { result := result, verdict := verdict ++ brs, tasks := mtasks }
+  { result := result, verdict := verdict ++ brs, tasks := mtasks, allNoop := implAllNoop }
 
 def sums (segs : List Seg) : String := s!"n={segs.length} full={fullSum segs} live={liveSum segs}"
 
-/-- execute the model's tasks one after the other, new ids from `next` -/
-def executeAll : Nat → List Seg → List (List Seg) → List Seg
-  | _, segs, [] => segs
-  | next, segs, t :: ts => executeAll (next + 1) (executeTask next segs t) ts
+/-- the exact value of a `float64 ≥ 1` as a fraction `num/den` in lowest terms (`den` a power of two), when both
+are below 2^20 (the harness decomposes the bit pattern the same way) -/
+def growthFraction (bits : UInt64) : Option (Nat × Nat) :=
+  let b := bits.toNat
+  let e := (b >>> 52) &&& 0x7ff
+  let m := (b &&& (2 ^ 52 - 1)) ||| 2 ^ 52
+  if b >>> 63 == 1 || e == 0 || e == 0x7ff then none else
+  -- value = m · 2^(e - 1075)
+  let rec strip (fuel m sh : Nat) : Nat × Nat :=      -- sh = 1075 - e while positive
+    match fuel with
+    | 0 => (m, sh)
+    | fuel + 1 => if sh > 0 && m % 2 == 0 then strip fuel (m / 2) (sh - 1) else (m, sh)
+  let (num, den) :=
+    if e ≥ 1075 then (m * 2 ^ (e - 1075), 1)
+    else let (m', sh) := strip 64 m (1075 - e); (m', 2 ^ sh)
+  if num < 2 ^ 20 && den < 2 ^ 20 && num ≥ den then some (num, den) else none
+
+def showScoreTable (t : List (List Int × Nat)) : String :=
+  " ".intercalate (t.map fun e => ".".intercalate (e.1.map toString) ++ "=" ++ toHex 16 e.2)
 
 def replaceAt (l : List Seg) (i : Nat) (s : Seg) : List Seg := l.set i s
+
+def planLine (st : St) (op impl : String) (kind : String) : St × String :=
+  match (op.drop (kind.length + 1)).toString.splitOn " | " with
+  | [os, ss, sc] =>
+    match parseOpts (os.splitOn " "), parseSegs ss with
+    | some (o, fo), some segs =>
+      let r := doPlan o fo segs sc impl (kind == "rplan")
+      (st, r.result ++ sep ++ r.verdict)
+    | _, _ => (st, "bad-op" ++ sep ++ "na")
+  | _ => (st, "bad-op" ++ sep ++ "na")
+
+/-- verdict of a `budget` line: the logarithmic bound (or, when the truncation eats the growth step, the
+linear lower bound) evaluated on the IMPLEMENTATION's number `ib` -/
+def budgetVerdict (ib : Int) (per num den first total : Nat) : String :=
+  if first * num / den == first then
+    -- budget_linear_when_tier_stuck: total ≤ first · budget
+    if (total : Int) ≤ first * ib then "ok br=budget-tier-stuck" else "bad:budget-below-linear-bound"
+  else
+    -- h = g − 1/first, as the fraction (num·first − den)/(den·first)
+    let hn := num * first - den
+    let hd := den * first
+    if growthAtLeast num den hn hd first && hn > hd then
+      match tiersNeededRat per hn hd first total 200 0 with
+      | some k => if ib ≤ per * (k + 1) then "ok br=budget-log-bound-rat" else "bad:budget-not-logarithmic"
+      | none => "ok br=budget-rat-many-tiers"
+    else "ok br=budget-rat-growth-not-established"
 
 def c19step (st : St) (op : String) (impl : String) : St × String :=
   let ws := op.splitOn " "
@@ -197,25 +256,21 @@ def c19step (st : St) (op : String) (impl : String) : St × String :=
   | "case" :: name :: rest =>
     if name.startsWith "h" then
       match parseOpts rest with
-      | some (o, fo) => ({ o := o, fo := fo, segs := [], inHist := true }, "case" ++ sep ++ "na")
+      | some (o, fo) => ({ o := o, fo := fo, segs := [], inHist := true },
+          "case" ++ sep ++ (if histOptionsSane o then "na br=hist-options-sane" else "na br=hist-options-not-sane"))
       | none => (st, "bad-op" ++ sep ++ "na")
     else ({}, "case" ++ sep ++ "na")
-  | "plan" :: _ =>
-    match (op.drop 5).toString.splitOn " | " with
-    | [os, ss, sc] =>
-      match parseOpts (os.splitOn " "), parseSegs ss with
-      | some (o, fo), some segs =>
-        let r := doPlan o fo segs sc impl
-        (st, r.result ++ sep ++ r.verdict)
-      | _, _ => (st, "bad-op" ++ sep ++ "na")
-    | _ => (st, "bad-op" ++ sep ++ "na")
+  | "witness" :: _ => (st, showScoreTable livelockScores ++ sep ++ "ok br=witness-scores")
+  | "plan" :: _ => planLine st op impl "plan"
+  | "rplan" :: _ => planLine st op impl "rplan"
+  | "real" :: _ => (st, "ok" ++ sep ++ "na br=real-writer-ran")   -- the real writer opened, took its batches and closed
   | "hplan" :: nx :: "|" :: _ =>
     match nx.toNat? with
     | some next =>
       let sc := match op.splitOn " | " with | [_, s] => s | _ => "-"
       let r := doPlan st.o st.fo st.segs sc impl
       let segs' := executeAll next st.segs r.tasks
-      ({ st with segs := segs' }, r.result ++ " after " ++ sums segs' ++ sep ++ r.verdict)
+      ({ st with segs := segs', lastAllNoop := r.allNoop }, r.result ++ " after " ++ sums segs' ++ sep ++ r.verdict)
     | none => (st, "bad-op" ++ sep ++ "na")
   | "add" :: _ =>
     match parseSegs (op.drop 4).toString with
@@ -232,7 +287,14 @@ def c19step (st : St) (op : String) (impl : String) : St × String :=
       ({ st with segs := segs' }, sums segs' ++ sep ++ "ok")
     | _, _ => (st, "bad-op" ++ sep ++ "na")
   | ["settled", _, _] =>
-    let v := if impl.startsWith "no-quiescence" then "bad:no-quiescence" else "ok br=settled"
+    -- histories are judged for `histOptionsSane` options (the predicate of the convergence theorems'
+    -- harness side); a history that does not settle because the planner keeps returning one-segment
+    -- rewrites of deletion-free segments is the finding `plan-only-noop-singletons`
+    let v :=
+      if impl.startsWith "no-quiescence" then
+        (if !histOptionsSane st.o then "na br=hist-unsettled-options-not-sane"
+         else if st.lastAllNoop then "bad:no-quiescence-noop-loop" else "bad:no-quiescence")
+      else "ok br=settled"
     (st, sums st.segs ++ sep ++ v)
   | "score" :: _ =>
     match (op.drop 6).toString.splitOn " | " with
@@ -255,20 +317,37 @@ def c19step (st : St) (op : String) (impl : String) : St × String :=
       let growth := Float.ofBits gb.toUInt64
       let o : Options := { defaultOptions with maxSegmentsPerTier := per }
       let b := calcBudgetF o ⟨growth, 2.0⟩ total first
+      let perN := (if per < 1 then 1 else per).toNat
+      let firstN := (if first < 1 then 1 else first).toNat
+      let ib : Option Int := match impl.splitOn " " with | w :: _ => w.toInt? | [] => none
+      -- field 2: the whole-number staircase (as before)
       let whole := growth ≥ 1 && growth ≤ 1000 && growth == growth.floor
-      if whole && total < 2 ^ 45 && first < 2 ^ 45 then
-        let perN := (if per < 1 then 1 else per).toNat
-        let firstN := (if first < 1 then 1 else first).toNat
-        let gN := growth.toUInt64.toNat
-        let bn := calcBudgetNat perN gN (total.toNat + 1) total.toNat firstN
-        -- budget_logarithmic on the implementation's number
-        let v := match impl.splitOn " " with
-          | ib :: _ => match ib.toInt?, tiersNeeded perN gN firstN total.toNat 64 0 with
+      let f2 : String × Option String :=
+        if whole && total < 2 ^ 45 && first < 2 ^ 45 then
+          let gN := growth.toUInt64.toNat
+          let bn := calcBudgetNat perN gN (total.toNat + 1) total.toNat firstN
+          let v := match ib, tiersNeeded perN gN firstN total.toNat 64 0 with
             | some ib, some k => if ib ≤ perN * (k + 1) then "ok br=budget-log-bound" else "bad:budget-not-logarithmic"
             | _, _ => "ok br=budget-growth-1"
-          | _ => "na"
-        (st, s!"{b} {bn}" ++ sep ++ v)
-      else (st, s!"{b} -" ++ sep ++ "ok br=budget-float-growth")
+          (toString bn, some v)
+        else ("-", none)
+      -- field 3: the rational staircase, when every float operation of the real function is exact
+      let f3 : String × Option String :=
+        match growthFraction gb.toUInt64 with
+        | some (num, den) =>
+          if 0 ≤ total && total < 2 ^ 32 && first < 2 ^ 32 && per < 256 then
+            let br := calcBudgetRat perN num den (total.toNat + 1) total.toNat firstN
+            (toString br, ib.map fun ib => budgetVerdict ib perN num den firstN total.toNat)
+          else ("-", none)
+        | none => ("-", none)
+      let v := match f2.2, f3.2 with
+        | some v2, some v3 =>
+          if v2.startsWith "bad" then v2 else if v3.startsWith "bad" then v3
+          else v2 ++ "," ++ (v3.drop 6).toString     -- "ok br=a" + "ok br=b" → "ok br=a,b"
+        | some v2, none => v2
+        | none, some v3 => v3
+        | none, none => "ok br=budget-float-growth"
+      (st, s!"{b} {f2.1} {f3.1}" ++ sep ++ v)
     | _, _, _, _ => (st, "bad-op" ++ sep ++ "na")
   | _ => (st, "bad-op" ++ sep ++ "na")
 
